@@ -34,7 +34,7 @@ class C12(EngineProp):
     level_note = 'Trusted: as C07; out-of-domain regions of the decoder are robustness-checked only.'
     design_ref = '§5 C12'
     rule = ('scripts mixing legal traffic with frames of any type on any stream (unknown, finished, live, 0), wrong types for the role, duplicate ids, fragments of a different type, '
-            'handlers/publishers/futures scripted to raise; after each script a probe request-response on a fresh stream must be answered and both tasks alive; '
+            'handlers/publishers/futures scripted to raise; after each script a probe request-response on a fresh stream must be answered, a request-response issued by the local application must reach the wire and its response the caller, and both tasks alive; '
             'plus raw messages on the message framing (serialised frames as is, truncated, IGNORE-flagged and truncated, bit-flipped, unknown type, random bytes, empty), '
             'decoded by the codec model on the model side; malformed input on the byte-stream framing under arbitrary chunking is exercised by the C04 check')
     assumptions = []
@@ -52,8 +52,27 @@ class C12(EngineProp):
         H.poll_futures()
         from harness.engine import simnet_tok
         got = [simnet_tok(e) for e in H.t.sent[n0:]]
-        # raw bytes on the same connection must not wedge it either
-        return {'probe_sid': sid, 'probe_wire': got, 'closed': False,
+        # ... and the endpoint's own requester half: a request the local application issues now is sent and its response delivered
+        # (issued through the scripted entry points, so the model replays these steps too)
+        from rsocket import frame as F
+        n1 = len(H.t.sent)
+        own = {'sent': False, 'result': None}
+        if not getattr(H.ep, '_honor_lease', False):
+            H.apply({'op': 'RR', 'data': [248]})
+            await loop.settle()
+            fut = H.objs[-1]['fut']
+            req = [e for e in H.t.sent[n1:] if isinstance(e[2], F.RequestResponseFrame)]
+            if req:
+                own['sent'] = True
+                own['sid'] = req[-1][2].stream_id
+                H.apply({'op': 'recv', 'frame': {'ty': 'PAYLOAD', 'sid': req[-1][2].stream_id, 'data': [247], 'complete': True, 'next': True}, 'beh': 'k'})
+                await loop.settle()
+                if fut.done() and not fut.cancelled() and fut.exception() is None:
+                    own['result'] = list(fut.result().data or b'')
+            H.poll_futures()
+        else:
+            own = None
+        return {'probe_sid': sid, 'probe_wire': got, 'closed': False, 'own_probe': own,
                 'sender_alive': H.ep._sender_task is not None and not H.ep._sender_task.done(),
                 'receiver_alive': H.ep._receiver_task is not None and not H.ep._receiver_task.done()}
 
@@ -67,6 +86,15 @@ class C12(EngineProp):
             want = 'S:PAYLOAD:%d:0110:0:0:249' % ex['probe_sid']
             if want not in ex['probe_wire']:
                 fails.append({'signature': 'probe-not-served', 'what': 'after the script a fresh request-response on stream %d was not answered (wire: %s)' % (ex['probe_sid'], ex['probe_wire'][:4])})
+            own = ex.get('own_probe')
+            if own is not None and own.get('sid') in _peer_touched_sids(obs):
+                # the peer had already sent frames on the very id this request was later given (an id of the endpoint's own parity,
+                # not yet allocated): whatever that does is confined to "the offending stream"; the property speaks of *other* streams
+                own = None
+            if own is not None and not own['sent']:
+                fails.append({'signature': 'own-request-not-sent', 'what': 'after the script a request-response issued by the local application was never put on the wire: the requester half of the connection is wedged'})
+            elif own is not None and own['result'] is None:
+                fails.append({'signature': 'own-request-not-answered', 'what': 'after the script the response to a request-response issued by the local application was not delivered to the caller (got %s)' % own['result']})
             if not ex['sender_alive'] or not ex['receiver_alive']:
                 fails.append({'signature': 'task-died', 'what': 'sender alive=%s receiver alive=%s after hostile input' % (ex['sender_alive'], ex['receiver_alive'])})
         # locality: an ERROR frame emitted while processing a received frame is on that frame's stream
@@ -90,6 +118,21 @@ class C12(EngineProp):
             if t.startswith('RA:EXC'):
                 fails.append({'signature': 'exception-reached-caller', 'what': 'step %d %s: %s' % (i, m, t)})
         return fails
+
+
+def _peer_touched_sids(obs):
+    out = set()
+    for m, _ in obs['steps']:
+        if m == 'RR:248':
+            break
+        if m.startswith('RECV:'):
+            out.add(int(m.split(':')[2]))
+        elif m.startswith('RAW:'):
+            h = m.split(':')[1]
+            b = bytes.fromhex(h) if h != '-' else b''
+            if len(b) >= 4:
+                out.add(int.from_bytes(b[:4], 'big') & 0x7fffffff)
+    return out
 
 
 PROP = C12()
